@@ -22,15 +22,16 @@ K2_MATCHER = "verbatim_about_or_group_description"
 # ---------------------------------------------------------------------------- case <-> structure
 
 def enc_opt(o):
-    if o["kind"] == "r":
+    if o["kind"] in "rk":
         v = o.get("setdefault")
-        dflt = "n" if v is None else ("s" + hx(v) if isinstance(v, str) else ("l" + wl(v) if isinstance(v, list) else ("1" if v else "0")))
+        dflt = "n" if v is None else ("s" + hx(v) if isinstance(v, str) else ("l" + wl(v) if isinstance(v, list) else
+                                      (("1" if v else "0") if isinstance(v, bool) else "i%d" % v)))
     elif o["kind"] == "o":
         dflt = "n" if o["default"] is None else "s" + hx(o["default"])
     elif o["kind"] == "m":
         dflt = "n" if o["default"] is None else "l" + wl(o["default"])
     else:
-        dflt = "1" if o["default"] else "0"
+        dflt = ("1" if o["default"] else "0") if isinstance(o["default"], bool) else "i%d" % o["default"]
     return ":".join([o["kind"].upper() if o.get("late") else o["kind"], str(o["group"]), hx(o["name"]), hx(o["short"]) if o["short"] else "-", hx(o["descr"]),
                      hx(o["env"]), hx(o["metavar"]), dflt, "1" if o["flag"] else "0",
                      "-" if o["rank"] is None else str(o["rank"])])
@@ -42,26 +43,27 @@ def dec_opt(w):
     f[0] = f[0].lower()
     o = dict(kind=f[0], late=late, group=int(f[1]), name=unhx(f[2]), short=None if f[3] == "-" else unhx(f[3]), descr=unhx(f[4]),
              env=unhx(f[5]), metavar=unhx(f[6]), flag=f[8] == "1", rank=None if f[9] == "-" else int(f[9]))
-    if f[0] == "r":
+    if f[0] in "rk":
         o["default"] = None
         o["setdefault"] = (None if f[7] == "n" else unhx(f[7][1:]) if f[7][0] == "s" else
-                           ([] if f[7][1:] == "." else [unhx(x) for x in f[7][1:].split(",")]) if f[7][0] == "l" else f[7] == "1")
+                           ([] if f[7][1:] == "." else [unhx(x) for x in f[7][1:].split(",")]) if f[7][0] == "l" else
+                           int(f[7][1:]) if f[7][0] == "i" else f[7] == "1")
     elif f[0] == "o":
         o["default"] = None if f[7] == "n" else unhx(f[7][1:])
     elif f[0] == "m":
         o["default"] = None if f[7] == "n" else ([] if f[7][1:] == "." else [unhx(x) for x in f[7][1:].split(",")])
     else:
-        o["default"] = f[7] == "1"
+        o["default"] = int(f[7][1:]) if f[7][0] == "i" else f[7] == "1"
     return o
 
 
 def enc_case(c):
     groups = ",".join(hx(g[0]) + ":" + hx(g[1]) + (":L" if len(g) > 2 and g[2] else "") for g in c["groups"]) if c["groups"] else "."
     pos = "0" if not c["pos"] else ("1" if c.get("posamt") is None else "a%d" % c["posamt"])
-    if c.get("hist") or c.get("fmt"):
-        pos += ":" + (c.get("hist") or "")
-    if c.get("fmt"):
-        pos += ":" + c["fmt"]
+    parts = [c.get("hist") or "", c.get("fmt") or "", c.get("style") or ""]
+    while parts and not parts[-1]:
+        parts.pop()
+    pos = ":".join([pos] + parts)
     return " ".join(["U", hx(c["app"]), hx(c["about"]), hx(c["defname"]), pos, hx(c["posname"]),
                      hx(c["prior"]), groups] + [enc_opt(o) for o in c["opts"]])
 
@@ -69,9 +71,9 @@ def enc_case(c):
 def dec_case(line):
     w = line.split(" ")
     groups = [] if w[7] == "." else [(unhx(g.split(":")[0]), unhx(g.split(":")[1]), g.endswith(":L")) for g in w[7].split(",")]
-    pos, hist, fmt = (w[4].split(":") + ["", ""])[:3]
+    pos, hist, fmt, style = (w[4].split(":") + ["", "", ""])[:4]
     posamt = int(pos[1:]) if pos.startswith("a") else None
-    return dict(app=unhx(w[1]), about=unhx(w[2]), defname=unhx(w[3]), pos=pos not in ("0", "a0"), posamt=posamt, hist=hist, fmt=fmt,
+    return dict(app=unhx(w[1]), about=unhx(w[2]), defname=unhx(w[3]), pos=pos not in ("0", "a0"), posamt=posamt, hist=hist, fmt=fmt, style=style,
                 posname=unhx(w[5]), prior=unhx(w[6]),
                 groups=groups, opts=[dec_opt(x) for x in w[8:]])
 
@@ -120,17 +122,17 @@ def is_malformed(line):
         c = dec_case(line)
     except (ValueError, IndexError):
         return True
-    names = [o["name"] for o in c["opts"] if o["kind"] != "r"]
+    names = [o["name"] for o in c["opts"] if o["kind"] not in "rk"]
     gnames = [g[0] for g in c["groups"]]
     order = [o for o in c["opts"] if not o.get("late")] + [o for o in c["opts"] if o.get("late")]
     seen = {}
     for o in order:
-        if o["kind"] != "r":
+        if o["kind"] not in "rk":
             seen.setdefault(o["name"], o)
         elif o["name"] not in seen or seen[o["name"]]["group"] != o["group"]:
             return True
     return (len(set(names)) != len(names) or len(set(gnames)) != len(gnames) or "__default" in gnames
-            or any(o["metavar"] == "" for o in c["opts"] if o["kind"] != "r") or any(o["short"] is not None and len(o["short"]) != 1 for o in c["opts"]))
+            or any(o["metavar"] == "" for o in c["opts"] if o["kind"] not in "rk") or any(o["short"] is not None and len(o["short"]) != 1 for o in c["opts"]))
 
 
 def toks(s):
@@ -191,6 +193,8 @@ def gen_name(rng, used):
         if used and rng.random() < 0.15:
             base = rng.choice(sorted(used))
             name = rng.choice([base + rng.choice(LETTERS), base[:max(1, len(base) - 1)], "no-" + base])[:30]
+        if rng.random() < 0.05:
+            name = (name + rng.choice(["{}", "%", "%d", "$", "\xe4", "\xfc\xdf", "{0}", "."]))[:30]
         if name not in used and name != "__default":
             used.add(name)
             return name
@@ -217,7 +221,26 @@ def gen_opt(rng, used, ngroups):
     elif kind == "m":
         o["default"] = None if rng.random() < 0.5 else rng.choice([[], ["a"], ["a", "b"], ["a", "", "b c"], ["", ""], [gen_word(rng, 41), "z"], ["x, y", "{}"]])
     else:
-        o["default"] = rng.random() < 0.5
+        o["default"] = rng.choice([False, True, False, True, 0, 1, 2, -1, 7])   # default_value(bool) and default_value(int)
+    if rng.random() < 0.06:      # format / printf / regex metacharacters, bytes >= 0x80, NUL, sizes beyond the usual
+        what = rng.choice(["metavar", "env", "descr", "default", "bigname", "bigmeta", "bigenv"])
+        special = rng.choice(["{}", "%", "%s", "$1", "{0}", "\\", "\xe4\xf6", "\xff", "a{}b", "\x00", "(.*)"])
+        if what == "metavar":
+            o["metavar"] = rng.choice([special, "A" + special, special + "Z"])
+        elif what == "env":
+            o["env"] = "E" + special.replace("\x00", "_")
+        elif what == "descr":
+            o["descr"] = o["descr"] + " " + special + " tail words"
+        elif what == "default" and kind == "o":
+            o["default"] = special
+        elif what == "default" and kind == "m":
+            o["default"] = [special, "x", special]
+        elif what == "bigname" and len(o["name"]) < 20:
+            o["name"] = o["name"] + "".join(rng.choice(NAMECH) for _ in range(rng.choice([50, 260])))
+        elif what == "bigmeta":
+            o["metavar"] = "M" * rng.choice([64, 100, 256])
+        elif what == "bigenv":
+            o["env"] = "E" * rng.choice([65, 300])
     return o
 
 
@@ -233,12 +256,14 @@ def gen_usage_case(rng, k2=False):
         gn = gen_name(rng, gnames)
         gd = "" if rng.random() < 0.4 else gen_text(rng, maxwords=8)
         groups.append((gn, gd[:80]))
-    nopts = rng.choice([0, 1, 1, 2, 3, 4, 5, 6])
+    nopts = rng.choice([0, 1, 1, 2, 3, 4, 5, 6]) if rng.random() < 0.97 else rng.randint(7, 12)
     opts = [gen_opt(rng, used, ng) for _ in range(nopts)]
     rerank(opts, rng)
     n = rng.choice(APP_LENGTHS)
     app = "".join(rng.choice(LETTERS + "_-") for _ in range(n))
     about = "" if rng.random() < 0.5 else "\n".join(gen_text(rng, maxwords=10)[:80] for _ in range(rng.randint(1, 3)))
+    if about and rng.random() < 0.05:
+        about += rng.choice([" {} %s", " \xe4\xf6\xfc", " $HOME {0}"])
     if k2:
         long_line = gen_word(rng, rng.randint(2, 9))
         while len(long_line) <= 80 + rng.randint(0, 30):
@@ -339,7 +364,7 @@ def gen_fp_longword_case(rng):
 def add_history(rng, c):
     """state that survives between uses: parse() calls before and between the usage() calls on the same parser object
     (empty / giving / failing argument vectors), a limited positional count, and options declared after a first usage()"""
-    c["hist"] = "".join(rng.sample("egfca", rng.randint(1, 4))) if rng.random() < 0.85 else rng.choice(["g", "c", "a", "ca"])
+    c["hist"] = "".join(rng.sample("egfcaxy", rng.randint(1, 4))) if rng.random() < 0.85 else rng.choice(["g", "c", "a", "ca"])
     if c["pos"] and rng.random() < 0.6:
         c["posamt"] = rng.choice([1, 1, 2, 3])
     if c["opts"] and rng.random() < 0.5:
@@ -348,6 +373,29 @@ def add_history(rng, c):
             o["late"] = True
     if rng.random() < 0.6:
         with_moved_groups(rng, c)
+    return c
+
+
+def add_style(rng, c):
+    """HOW the declaration is written down (the text may not depend on it): D default arguments and default member values
+    instead of explicit ones, P parser::option/... instead of parser::group().option, G groups fetched again by name, C one
+    fluent chain of setters, T values set twice, B the public pieces called directly.  With D some values are moved onto the
+    defaults so that the short forms are really taken"""
+    c["style"] = "".join(l for l in "DPGCTB" if rng.random() < 0.4) or rng.choice("DPGCTB")
+    if "D" in c["style"]:
+        if rng.random() < 0.5:
+            c["defname"] = "arguments"
+        if rng.random() < 0.4:
+            c["about"] = ""
+        if rng.random() < 0.3:
+            c["app"] = "main"
+        if rng.random() < 0.5:
+            c["posname"] = "args"
+        for o in c["opts"]:
+            if o["kind"] in "omt" and rng.random() < 0.5:
+                o["metavar"] = "ARG"
+            if o["kind"] in "omt" and rng.random() < 0.3:
+                o["descr"] = ""
     return c
 
 
@@ -379,14 +427,14 @@ def add_rerequests(rng, c):
     immediately after the first request, after other declarations in the same or another group, and late (after the
     parse()/move/usage() steps); sometimes with setters on the returned object, which must show up in the ONE block.
     The word of the first request keeps its own state; env and short name can be set only once."""
-    base = [o for o in c["opts"] if o["kind"] != "r"]
+    base = [o for o in c["opts"] if o["kind"] not in "rk"]
     if not base:
         return c
     has_env = dict((o["name"], bool(o["env"])) for o in base)
     has_short = dict((o["name"], bool(o["short"])) for o in base)
     for _ in range(rng.choice([1, 1, 2, 3])):
         t = rng.choice(base)
-        r = dict(kind="r", group=t["group"], name=t["name"], short=None, descr=rng.choice(["", "another description", t["descr"]]),
+        r = dict(kind=rng.choice("rrk"), group=t["group"], name=t["name"], short=None, descr=rng.choice(["", "another description", t["descr"]]),
                  env="", metavar="", flag=False, rank=None, default=None, setdefault=None, late=bool(t.get("late")))
         if rng.random() < 0.6:   # setters through the re-request
             what = rng.sample(["env", "default", "metavar", "flag", "short"], rng.randint(1, 3))
@@ -399,7 +447,7 @@ def add_rerequests(rng, c):
                 elif t["kind"] == "m":
                     r["setdefault"] = rng.choice([[], ["r"], ["r", "", "s t"]])
                 else:
-                    r["setdefault"] = rng.random() < 0.5
+                    r["setdefault"] = rng.choice([False, True, 0, 1, 2, -1])
             if "metavar" in what and t["kind"] != "t":
                 r["metavar"] = rng.choice(["NEW", "ARG", "x y"])
             if "flag" in what and t["kind"] != "t":
@@ -478,6 +526,15 @@ def small_usage_cases():
         opts = [dict(kind=k, group=0, name=n, short=None, descr="d", env="", metavar="ARG", flag=(k != "t"), rank=None,
                      default=(False if k == "t" else None), late=(late and n == "cc")) for k, n in zip("otm", ["aa", "bb", "cc"])]
         yield dict(app="app", about="", defname="arguments", pos=True, posamt=posamt, hist=hist, posname="args", prior="p", groups=[], opts=rerank(opts))
+    # every way of writing the same declaration down (style letters alone and together), on a declaration made of default values,
+    # with default_value(bool)/(int), a setter through a kept reference, usage() inside the exception handler, greedy_postionals()
+    for style, tdef in itertools.product(["D", "P", "G", "C", "T", "B", "DP", "DG", "CT", "DPGCTB"], [False, True, 0, 2, -1]):
+        opts = [dict(kind="o", group=0, name="opt", short="o", descr="", env="OPT_ENV", metavar="ARG", flag=True, rank=None, default="dv", late=False),
+                dict(kind="m", group=1, name="mul", short=None, descr="words", env="", metavar="ARG", flag=True, rank=None, default=["a", "b"], late=False),
+                dict(kind="t", group=1, name="tog", short=None, descr="", env="", metavar="ARG", flag=True, rank=None, default=tdef, late=False),
+                dict(kind="k", group=1, name="mul", short="m", descr="", env="LATE", metavar="N", flag=False, rank=None, default=None, setdefault=["c"], late=True)]
+        yield dict(app="main", about="", defname="arguments", pos=True, posamt=None, hist="xyg", fmt="", style=style, posname="args", prior="",
+                   groups=[("grp", "", False)], opts=rerank(opts))
     # formatting state of the target stream: every dimension alone and a few combinations, on a text with padding and wrapping
     for fmt in ["f30", "f2a", "L", "I", "R", "f30.L", "f2a.I", "f30.R", "h", "o", "s", "u", "b", "h.s.u", "p0", "p12", "e",
                 "f30.L.h.s.u.b.p3.e", "f2a.I.o.s.b.p0.e"]:
@@ -614,7 +671,13 @@ class C15(Check):
             "every target stream before usage() (fill ' '/'0'/'*', adjustfield left/right/internal, basefield, showbase, uppercase, "
             "boolalpha, precision, exceptions(goodbit); one more usage() goes to a stream in its default state) - the model says none of "
             "it matters, the text is a function of the declarations only; a pending field width is NOT generated by default (it changes "
-            "the text on the unchanged tree: reported finding, witness in corpus/C15.txt, opt in with VERIF_C15_PENDING_WIDTH=1); about a third of the usage cases RE-REQUEST declared "
+            "the first line through the first formatted insertion - ordinary iostream behaviour of the caller's stream, outside the "
+            "property's quantifier; opt in with VERIF_C15_PENDING_WIDTH=1); half of the usage cases vary HOW the declaration is written "
+            "(default arguments/default member values vs explicit ones, parser::option vs group().option, groups fetched again by "
+            "name, one fluent setter chain, values set twice, default_value(bool) vs (int), setters through kept references, direct "
+            "calls of base::format/format_*/group::usage whose output must occur in the text), usage() inside the handler of a failed "
+            "parse, greedy_postionals(); names/metavars/env/defaults/about with {} % $ \\ regex characters, bytes >= 0x80, NUL, "
+            "lengths of 64-300 bytes; about a third of the usage cases RE-REQUEST declared "
             "options (same name/kind/group: directly, after other declarations of the same or another group, late) with or without "
             "setters on the returned object (the block must appear once, carrying them), "
             "and usage() twice on a fresh string stream; (iii) declarations outside the "
@@ -649,6 +712,8 @@ class C15(Check):
                 add_rerequests(rng, c)
             if rng.random() < 0.35:
                 c["fmt"] = gen_fmt(rng)
+            if rng.random() < 0.5:
+                add_style(rng, c)
             line = enc_case(c)
             if k2_lines(c):
                 self._k2_cases.append(line)
@@ -708,8 +773,8 @@ class C15(Check):
         def variant(**kw):
             d = dict(c)
             d.update(kw)
-            base = set(o["name"] for o in d["opts"] if o["kind"] != "r")
-            d["opts"] = rerank([dict(o) for o in d["opts"] if o["kind"] != "r" or o["name"] in base])
+            base = set(o["name"] for o in d["opts"] if o["kind"] not in "rk")
+            d["opts"] = rerank([dict(o) for o in d["opts"] if o["kind"] not in "rk" or o["name"] in base])
             return enc_case(d)
         for i in range(len(c["opts"])):
             yield variant(opts=c["opts"][:i] + c["opts"][i + 1:])
@@ -717,6 +782,11 @@ class C15(Check):
             yield variant(about="")
         if c["prior"]:
             yield variant(prior="")
+        if c.get("style"):
+            yield variant(style="")
+            for i in range(len(c["style"])):
+                if len(c["style"]) > 1:
+                    yield variant(style=c["style"][:i] + c["style"][i + 1:])
         if c.get("fmt"):
             yield variant(fmt="")
             items = c["fmt"].split(".")
@@ -762,7 +832,7 @@ class C15(Check):
                 yield with_o(env="")
             if o["kind"] != "t" and o["default"] is not None:
                 yield with_o(default=None)
-            if o["kind"] == "r" and o.get("setdefault") is not None:
+            if o["kind"] in "rk" and o.get("setdefault") is not None:
                 yield with_o(setdefault=None)
             if o["group"] != 0:
                 yield with_o(group=0)
